@@ -25,6 +25,14 @@ fn proxy_request_internal(
     let mut stream =
         TcpStream::connect_timeout(&target, timeout).map_err(|_| ResponseError::Stream)?;
 
+    // Without these, a target which accepts the connection and then goes silent would block the caller forever
+    stream
+        .set_read_timeout(Some(timeout))
+        .map_err(|_| ResponseError::Stream)?;
+    stream
+        .set_write_timeout(Some(timeout))
+        .map_err(|_| ResponseError::Stream)?;
+
     let mut cloned_request = request.clone();
     cloned_request
         .headers
